@@ -1,6 +1,9 @@
 #!/bin/bash
-# usage: seed_take.sh <prop> <suffix>  -- confirm /tmp/seed/<prop>, store as seeded/<prop>-<suffix>, drop the worktree, run the property's check on it
-P=$1; SFX=$2; ID=$P-$SFX
-/verif/tools/seed_verify.sh /tmp/seed/$P $ID $P 2>&1 | tail -1
-git -C /repo worktree remove --force /tmp/seed/$P 2>/dev/null; git -C /repo worktree prune
-[ -d /verif/seeded/$ID ] && /verif/tools/seed_run.sh $ID $P
+# usage: seed_take.sh <prop> <suffix> [<root>=/tmp/seed] [<extra props>...]
+# confirm <root>/<prop> (tools/seed_verify.sh), store it as seeded/<prop>-<suffix>, drop the worktree, then run the
+# property's quick check (and any extra ones) against a scratch copy of /repo with the patch applied (tools/iso_run.sh)
+P=$1; SFX=$2; ROOT=${3:-/tmp/seed}; shift 3 2>/dev/null
+ID=$P-$SFX
+/verif/tools/seed_verify.sh $ROOT/$P $ID $P 2>&1 | tail -1
+git -C /repo worktree remove --force $ROOT/$P 2>/dev/null; git -C /repo worktree prune
+[ -d /verif/seeded/$ID ] && /verif/tools/iso_run.sh seed-$ID /verif/seeded/$ID/patch.diff quick $P "$@"
